@@ -358,10 +358,14 @@ class Transfer:
         return snapshot
 
     def _remotely_queue_task_complete(self, task: asyncio.Task):
-        self._remotely_queue_task = None
+        # Only clear the slot if it still holds the completed task: a new task
+        # could already have been assigned before this callback was called
+        if self._remotely_queue_task is task:
+            self._remotely_queue_task = None
 
     def _transfer_task_complete(self, task: asyncio.Task):
-        self._transfer_task = None
+        if self._transfer_task is task:
+            self._transfer_task = None
 
     def _transfer_progress_callback(self, data: bytes):
         self.bytes_transfered += len(data)
